@@ -249,6 +249,8 @@ namespace sqf::parser::preprocessor
             instance(impl_default* owner, Logger& logger, std::unordered_map<std::string, ::sqf::runtime::parser::macro> macros) : CanLog(logger), m_owner(owner), m_macros(macros) {};
             std::vector<file_scope> m_file_scopes;
             std::unordered_set<std::string> m_visited;
+            // Names of the macros currently being expanded (innermost last)
+            std::vector<std::string> m_macro_stack;
             bool m_errflag = false;
             impl_default* m_owner;
             std::unordered_map<std::string, ::sqf::runtime::parser::macro> m_macros;
